@@ -67,10 +67,10 @@ class Prog:
                 self.kids[f[i]] = [f[k] for k in self.kids[i]]
         return f, [[i, f[i]] for i in src]
 
-    def add_sub(self, c, s):
+    def add_sub(self, c, s, what=''):
         f, fm = self._copy(s)
         self.kids[c].append(f[s])
-        self._step(a='AddSub', c=c, id=f[s], s=s, fm=fm)
+        self._step(a='AddSub', c=c, id=f[s], s=s, fm=fm, what=what)
         return f[s]
 
     def copy(self, s):
